@@ -361,6 +361,31 @@ def run(ctx: Ctx) -> None:
         else:
             rep.bad("C05.R9", so.qname, desc, so.loc(st), w, stmt_key(st), what="an option value is stored before (or without) being validated")
     rep.floor("C05.R9", n9, 1)
+    # ... and what reset_option puts back is the option's default VALUE (the Option object itself, or its key, is not a value the size guard can compare)
+    rep.rule("C05.R11", "reset_option stores `<option>.default` into the table of option values")
+    ro = prog.funcs.get("dds._config.reset_option")
+    if ro is None:
+        raise AnchorError("dds._config.reset_option not found")
+    ro = unfacade(ctx, ro)
+    n11 = 0
+    for st in ro.own_nodes():
+        if isinstance(st, ast.Assign) and any(isinstance(t, ast.Subscript) for t in st.targets):
+            n11 += 1
+            v = st.value
+            if isinstance(v, ast.Name):
+                from ..flow import flow_of as _fo
+                ds = _fo(prog, ro).defs_of_use(v)
+                if len(ds) == 1 and ds[0].value is not None:
+                    v = ds[0].value
+            desc = f"`{unparse(st, 50)}` puts the default value of the option back"
+            if isinstance(v, ast.Attribute) and v.attr == "default":
+                rep.ok("C05.R11", ro.qname, desc, ro.loc(st))
+            else:
+                rep.bad("C05.R11", ro.qname, desc, ro.loc(st), [f"{ro.loc(st)}: the stored value `{unparse(v, 50)}` is not `<option>.default`",
+                        "after reset_option('hash.max_sequence_size') the size guard compares len(x) with an Option object: hashing any list / dict / dataclass ends with "
+                        "TypeError ('>' not supported between 'int' and 'Option') instead of a signature or a coded error"], stmt_key(st),
+                        what="reset_option stores something else than the option's default value")
+    rep.floor("C05.R11", n11, 1)
     if rep.prop == "C05":
         # the arguments of a kept call reach the value hasher through the binders: a value that never reaches it (None passed by keyword
         # taken for "not passed", the whole keyword mapping hashed in place of one value) shares the signature of another value
@@ -372,6 +397,11 @@ def run(ctx: Ctx) -> None:
             o.rule = "C05.R10/" + o.rule
         for k in [k for k in rep.floors if k.startswith("C13.")]:
             rep.floors["C05.R10/" + k] = rep.floors.pop(k)
+    if rep.prop == "C05":
+        from .c01 import tracked_type_table
+        rep.rule("C05.R12", "as C01.R4: tracked variables of every supported plain type reach the value hasher (a type classified as external is hashed by its name only: "
+                            "two values of the variable share a signature), each structural option governs its own types")
+        tracked_type_table(ctx, "C05.R12")
     rep.rule("C05.R8", "the digest helpers hash their argument itself (an encode at most between the parameter and hashlib)")
     n8 = algo_preimage_rule(ctx, "C05.R8")
     rep.floor("C05.R8", n8, 2)
